@@ -985,6 +985,29 @@ func (e *boundsEngine) sliceOK(s *ssa.Slice) (bool, string) {
 	if _, ok := arrayLen(s.X.Type()); ok && s.Low == nil && s.High == nil {
 		return true, "whole fixed-size array"
 	}
+	// a fixed-size array sliced with constant bounds (make([]T, n, c) compiles
+	// to new [c]T sliced to [:n])
+	if n, ok := arrayLen(s.X.Type()); ok {
+		lo, hi := int64(0), n
+		okc := true
+		if s.Low != nil {
+			if k, ok := constInt(s.Low); ok {
+				lo = k
+			} else {
+				okc = false
+			}
+		}
+		if s.High != nil {
+			if k, ok := constInt(s.High); ok {
+				hi = k
+			} else {
+				okc = false
+			}
+		}
+		if okc && 0 <= lo && lo <= hi && hi <= n {
+			return true, fmt.Sprintf("constant bounds %d:%d of a fixed-size array of %d", lo, hi, n)
+		}
+	}
 	L := canonLen(s.X)
 	at := s.Block()
 	e.useBlock = at
